@@ -165,7 +165,7 @@ Lemma step_sim p st sp o :
   R (fst (fst (step qf p st o))) (fst (sstep qf sp o)) /\ snd (fst (step qf p st o)) = snd (sstep qf sp o).
 Proof.
   intros HR Hok. pose proof HR as [HI HO].
-  destruct o as [v | s mask isn sn | j | j ks b | j keep | j | j keep | j q | j q | i | j | i mask | j | j m q | i | i].
+  destruct o as [v | s mask isn sn nrm | j | j ks b | j keep | j | j keep | j q | j q | i | j | i mask | j | j m q | i | i].
   - (* ONew *)
     cbn. split; [|reflexivity]. split; cbn [st_heap st_inputs st_objs sp_inputs sp_objs].
     + apply F2_snoc; [now apply inputs_ext | apply cell_ok_new].
@@ -204,7 +204,8 @@ Proof.
       rewrite hget_app_new, Hv in *.
       destruct (negb (Nat.eqb (length v0) (if n0 then length mask else count_false mask))) eqn:Echk.
       * cbn. split; [|reflexivity]. split; cbn [st_heap st_inputs st_objs]; [now apply inputs_ext | now apply objs_ext].
-      * destruct n0; destruct sn; cbn [Bool.eqb fst snd] in *; rewrite ?hset_app_new, ?hget_app_new in *;
+      * destruct n0; destruct sn; destruct nrm as [qn|]; cbn [Bool.eqb fst snd] in *;
+          rewrite ?hset_app_new, ?hget_app_new in *; rewrite ?hset_app_new, ?hget_app_new in *;
           new_obj_goal.
     + (* no copy: the caller's cell is used *)
       rewrite Hv in *.
@@ -212,14 +213,22 @@ Proof.
       * cbn. split; [|reflexivity]. exact HR.
       * destruct n0.
         -- (* in-place write into an existing cell: excluded by the discipline *)
-           exfalso. destruct sn; floor_contra Hok.
+           exfalso. destruct sn; destruct nrm as [qn|]; floor_contra Hok.
         -- destruct sn; cbn [Bool.eqb] in *.
-           ++ cbn. rewrite hget_app_new, Hv. split; [|reflexivity].
-              split; cbn [st_heap st_inputs st_objs sp_inputs sp_objs]; [now apply inputs_ext|].
-              apply F2_snoc; [now apply objs_ext|]. split; cbn; [apply cell_ok_new|]. repeat split; constructor.
-           ++ cbn. rewrite Hv. split; [|reflexivity].
-              split; cbn [st_heap st_inputs st_objs sp_inputs sp_objs]; [assumption|].
-              apply F2_snoc; [assumption|]. split; cbn; [now split|]. repeat split; constructor.
+           ++ destruct nrm as [qn|]; cbn [fst snd] in *; rewrite ?hset_app_new, ?hget_app_new in *; rewrite ?Hv in *.
+              ** cbn. rewrite ?hget_app_new. split; [|reflexivity].
+                 split; cbn [st_heap st_inputs st_objs sp_inputs sp_objs]; [now apply inputs_ext|].
+                 apply F2_snoc; [now apply objs_ext|]. split; cbn; [apply cell_ok_new|]. repeat split; constructor.
+              ** cbn. rewrite ?hget_app_new. split; [|reflexivity].
+                 split; cbn [st_heap st_inputs st_objs sp_inputs sp_objs]; [now apply inputs_ext|].
+                 apply F2_snoc; [now apply objs_ext|]. split; cbn; [apply cell_ok_new|]. repeat split; constructor.
+           ++ destruct nrm as [qn|].
+              ** (* Kernel2D(values=<slim caller array>, normalize=True) without the copy: the in-place normalisation hits the
+                    caller's cell -- excluded by the discipline *)
+                 exfalso. floor_contra Hok.
+              ** cbn. rewrite Hv. split; [|reflexivity].
+                 split; cbn [st_heap st_inputs st_objs sp_inputs sp_objs]; [assumption|].
+                 apply F2_snoc; [assumption|]. split; cbn; [now split|]. repeat split; constructor.
   - (* OAlias *)
     cbn [step sstep] in *. pose proof (F2_nth _ _ _ j HO) as Hj.
     destruct (nth_error (st_objs st) j) as [ob|], (nth_error (sp_objs sp) j) as [so|]; try contradiction; [|cbn; auto].
@@ -351,7 +360,7 @@ Lemma effects_sound qf p st o c :
   In c (e_writes (snd (step qf p st o))).
 Proof.
   intros Hc.
-  destruct o as [v | s mask isn sn | j | j ks b | j keep | j | j keep | j q | j q | i | j | i mask | j | j m q | i | i];
+  destruct o as [v | s mask isn sn nrm | j | j ks b | j keep | j | j keep | j q | j q | i | j | i mask | j | j m q | i | i];
     cbn [step].
   - sc. rewrite hget_app_old by exact Hc. congruence.
   - destruct (match s with
@@ -362,15 +371,17 @@ Proof.
     + rewrite hget_app_new.
       destruct (negb (Nat.eqb (length (hget (st_heap st) c0)) (if n0 then length mask else count_false mask))).
       * sc. rewrite hget_app_old by exact Hc. congruence.
-      * destruct n0, sn; cbn [Bool.eqb fst snd st_heap e_writes]; rewrite ?hset_app_new, ?hget_app_new;
-          cbn [fst snd st_heap e_writes]; rewrite <- ?app_assoc, ?hget_app_old by exact Hc; try congruence.
+      * destruct n0, sn, nrm as [qn|]; cbn [Bool.eqb fst snd st_heap e_writes]; rewrite ?hset_app_new, ?hget_app_new;
+          cbn [fst snd st_heap e_writes]; rewrite ?hset_app_new, ?hget_app_new; cbn [fst snd st_heap e_writes];
+          rewrite <- ?app_assoc, ?hget_app_old by exact Hc; try congruence.
     + destruct (negb (Nat.eqb (length (hget (st_heap st) c0)) (if n0 then length mask else count_false mask))).
       * sc. congruence.
-      * destruct n0, sn; cbn [Bool.eqb fst snd st_heap e_writes].
-        all: try (intros H; destruct (Nat.eq_dec c0 c) as [E|E]; [now left|];
-                  rewrite ?hget_app_old in H by (rewrite ?hset_length; exact Hc);
-                  rewrite hget_hset_other in H by exact E; congruence).
-        all: rewrite ?hget_app_old by exact Hc; congruence.
+      * destruct n0, sn, nrm as [qn|]; cbn [Bool.eqb fst snd st_heap e_writes app].
+        all: rewrite ?hset_app_new; cbn [fst snd st_heap e_writes app]; intros H;
+             first [ exfalso; apply H; rewrite ?hget_app_old by (rewrite ?hset_length; exact Hc); reflexivity
+                   | destruct (Nat.eq_dec c0 c) as [E|E]; [subst; cbn; auto|];
+                     exfalso; apply H; rewrite ?hget_app_old by (rewrite ?hset_length; exact Hc);
+                     rewrite ?hget_hset_other by exact E; reflexivity ].
   - destruct (nth_error (st_objs st) j); sc; congruence.
   - destruct (nth_error (st_objs st) j); [|sc; congruence]. unfold derive, halloc; sc.
     rewrite <- app_assoc, hget_app_old by exact Hc. congruence.
@@ -448,7 +459,7 @@ Proof.
   destruct p as [a b c d e f]. unfold safe; cbn [p_construct_copies p_derive_keeps_cache p_trim_keeps_cache
     p_values_masked_in_place p_maprecon_copies p_interf_mutates_settings].
   intros H. destruct a, b, c, d, e, f; try discriminate. clear H.
-  destruct o as [v | s mask isn sn | j | j ks b | j keep | j | j keep | j q | j q | i | j | i mask | j | j m q | i | i];
+  destruct o as [v | s mask isn sn nrm | j | j ks b | j keep | j | j keep | j q | j q | i | j | i mask | j | j m q | i | i];
     cbn [step p_construct_copies p_derive_keeps_cache p_trim_keeps_cache
          p_values_masked_in_place p_maprecon_copies p_interf_mutates_settings].
   - reflexivity.
@@ -458,7 +469,8 @@ Proof.
               end) as [[c0 n0]|]; [|reflexivity].
     unfold halloc. rewrite hget_app_new.
     destruct (negb (Nat.eqb (length (hget (st_heap st) c0)) (if n0 then length mask else count_false mask))); [reflexivity|].
-    destruct n0, sn; unfold step_ok; cbn; rewrite ?Nat.leb_refl; reflexivity.
+    destruct n0, sn, nrm as [qn|]; unfold step_ok; cbn; rewrite ?andb_true_r; repeat (apply andb_true_iff; split);
+      try reflexivity; apply Nat.leb_le; repeat (rewrite ?hset_length, ?app_length); cbn; lia.
   - destruct (nth_error (st_objs st) j); reflexivity.
   - destruct (nth_error (st_objs st) j); reflexivity.
   - destruct (nth_error (st_objs st) j); reflexivity.
@@ -493,7 +505,7 @@ Proof. intros Hs. apply discipline_implies_purity. apply safe_run_ok; assumption
 (* the code of today outside the recorded finding class *)
 Lemma faithful_step_ok st o : finding_class st o = false -> step_ok (snd (step qf faithful st o)) = true.
 Proof.
-  destruct o as [v | s mask isn sn | j | j ks b | j keep | j | j keep | j q | j q | i | j | i mask | j | j m q | i | i];
+  destruct o as [v | s mask isn sn nrm | j | j ks b | j keep | j | j keep | j q | j q | i | j | i mask | j | j m q | i | i];
     cbn [step finding_class faithful p_construct_copies p_derive_keeps_cache p_trim_keeps_cache
          p_values_masked_in_place p_maprecon_copies p_interf_mutates_settings]; intros Hf; try discriminate.
   - reflexivity.
@@ -503,7 +515,8 @@ Proof.
               end) as [[c0 n0]|]; [|reflexivity].
     unfold halloc. rewrite hget_app_new.
     destruct (negb (Nat.eqb (length (hget (st_heap st) c0)) (if n0 then length mask else count_false mask))); [reflexivity|].
-    destruct n0, sn; unfold step_ok; cbn; rewrite ?Nat.leb_refl; reflexivity.
+    destruct n0, sn, nrm as [qn|]; unfold step_ok; cbn; rewrite ?andb_true_r; repeat (apply andb_true_iff; split);
+      try reflexivity; apply Nat.leb_le; repeat (rewrite ?hset_length, ?app_length); cbn; lia.
   - destruct (nth_error (st_objs st) j); reflexivity.
   - destruct (nth_error (st_objs st) j); reflexivity.
   - destruct (nth_error (st_objs st) j); reflexivity.
@@ -704,19 +717,19 @@ Definition policy_D10 : policy := mkPolicy true true false true true false.
 Definition policy_D11 : policy := mkPolicy true false true true true false.
 Definition policy_D12 : policy := mkPolicy true false false true true true.
 (* D10 (repaired): is_uniform / amplitudes read, then x * 2 reported the cached value of x *)
-Definition hist_D10 : list op := [ONew [1; 2; 3]; OConstruct (SIn 0) [false; false; false] false false; ORead 0 1; OArith 0 [2] 0; ORead 1 1].
+Definition hist_D10 : list op := [ONew [1; 2; 3]; OConstruct (SIn 0) [false; false; false] false false None; ORead 0 1; OArith 0 [2] 0; ORead 1 1].
 (* D11 (repaired): grids read, then the trimmed dataset reported the untrimmed grids *)
 Definition hist_D11 : list op :=
-  [ONew [1; 2; 3; 4]; OConstruct (SIn 0) [false; false; false; false] true true; OAlias 0; ORead 1 7;
+  [ONew [1; 2; 3; 4]; OConstruct (SIn 0) [false; false; false; false] true true None; OAlias 0; ORead 1 7;
    OTrim 1 [false; true; true; false]; ORead 2 7].
 (* D12 (repaired): an interferometer inversion flipped use_w_tilde on the settings object it was given *)
 Definition hist_D12 : list op := [ONew [1]; OImaging 0; OInterf 0; OImaging 0].
 (* D7 (repaired): Grid2D(values=native) zeroed the caller's array *)
-Definition hist_D7 : list op := [ONew [5; 6; 7]; OConstruct (SIn 0) mask3 true false; OPeekIn 0].
+Definition hist_D7 : list op := [ONew [5; 6; 7]; OConstruct (SIn 0) mask3 true false None; OPeekIn 0].
 (* D9 (repaired): mapped_reconstructed_image_from zeroed the cached mapping matrix *)
 Definition qf_mm : qfn := fun q m a => [1; 0; 0; 0; 1; 0; 0; 0; 1].
 Definition hist_D9 : list op :=
-  [ONew [1; 2; 3]; OConstruct (SIn 0) [false; false; false] false false; ONew [5; 6; 7]; OValued 1 mask3;
+  [ONew [1; 2; 3]; OConstruct (SIn 0) [false; false; false] false false None; ONew [5; 6; 7]; OValued 1 mask3;
    OMapRecon 1 0 0; ORead 0 0].
 
 Lemma purity_refuted_D8 : observations qf_sum faithful hist_D8 <> spec_observations qf_sum hist_D8
@@ -733,6 +746,20 @@ Lemma purity_refuted_D7_revert : observations qf_sum policy_D7 hist_D7 <> spec_o
 Proof. vm_compute; discriminate. Qed.
 Lemma purity_refuted_D9_revert : observations qf_mm policy_D9 hist_D9 <> spec_observations qf_mm hist_D9.
 Proof. vm_compute; discriminate. Qed.
+(* Kernel2D.__init__ normalises IN PLACE (`self._array[:] = ...`): without the eager copy of convert_array_2d the array it writes
+   into is the caller's (a slim ndarray stored slim) or the source kernel's (`psf.normalized` = Kernel2D(values=self, normalize=True)) *)
+Definition qf_norm : qfn := fun q m a => map (fun x => 10 * x) a.
+Definition hist_norm_in : list op := [ONew [2; 2]; OConstruct (SIn 0) [false; false] false false (Some 5%nat); OPeekIn 0].
+Definition hist_norm_obj : list op :=
+  [ONew [2; 2]; OConstruct (SIn 0) [false; false] false false None; OConstruct (SObj 0) [false; false] false false (Some 5%nat); OPeekObj 0].
+Lemma purity_refuted_normalize_without_copy :
+  observations qf_norm policy_D7 hist_norm_in <> spec_observations qf_norm hist_norm_in /\
+  map (hget (st_heap (final qf_norm policy_D7 hist_norm_in))) (st_inputs (final qf_norm policy_D7 hist_norm_in)) <> news hist_norm_in /\
+  observations qf_norm policy_D7 hist_norm_obj <> spec_observations qf_norm hist_norm_obj /\
+  observations qf_norm faithful hist_norm_in = spec_observations qf_norm hist_norm_in /\
+  observations qf_norm faithful hist_norm_obj = spec_observations qf_norm hist_norm_obj /\
+  nth 1 (observations qf_norm faithful hist_norm_in) bad = Ok [20; 20].
+Proof. repeat split; vm_compute; discriminate. Qed.
 (* the D8 history is in the finding class; the histories of the repaired sites are outside it and pure today *)
 Lemma refutations_and_finding_class :
   avoids_findings qf_sum hist_D8 = false /\
@@ -851,9 +878,11 @@ Proof. vm_compute; discriminate. Qed.
 (* ------------------------------------------------------------------ the non-vacuity example of Props/C11.v *)
 Local Open Scope Z_scope.
 Definition example_history : list op :=
-  [ONew [5; 6; 7; 8]; OConstruct (SIn 0) [false; true; false; false] true false; ORead 0 1; OArith 0 [2; 3] 1;
-   ORead 1 1; OSlice 1 [true; false; true]; ORead 2 1; OConstruct (SIn 0) [false; false; false; false] true true;
+  [ONew [5; 6; 7; 8]; OConstruct (SIn 0) [false; true; false; false] true false None; ORead 0 1; OArith 0 [2; 3] 1;
+   ORead 1 1; OSlice 1 [true; false; true]; ORead 2 1; OConstruct (SIn 0) [false; false; false; false] true true None;
    OAlias 3; ORead 4 7; OTrim 4 [false; true; true; false]; ORead 5 7; OCopy 0; ORead 6 1;
    ONew [1; 2; 3]; OValued 1 [false; false; false]; OValuesMasked 7; OMapRecon 7 0 0; OPeekIn 1;
-   ONew [1]; OImaging 2; OInterf 2; OImaging 2; OPeekIn 0].
+   ONew [1]; OImaging 2; OInterf 2; OImaging 2; OPeekIn 0;
+   OConstruct (SObj 0) [false; true; false; false] false true None; OConstruct (SObj 8) [false; true; false; false] true false (Some 9%nat);
+   OPeekObj 8; OPeekIn 0].
 Local Close Scope Z_scope.
